@@ -61,6 +61,8 @@ ObsInit == [fkey |-> EmptyMap,     \* future -> Key(type, executor)
             shc |-> {}, shr |-> {},\* <<Key, instance>> of executors whose shutdown() was entered / has returned
             polls |-> EmptyMap, pollerr |-> EmptyMap,   \* executor id -> calls / raising calls of the poll fn
             wasdone |-> EmptyMap,  \* <<thread, f>> -> was f already done when that thread's pending cancel() of it arrived
+            shterm |-> EmptyMap,   \* executor id of a CancelOnShutdownExecutor -> the futures that were already terminal when its
+                                   \* shutdown() was called
             cdepth |-> EmptyMap,   \* <<thread, f>> -> cancel() calls of f that thread is inside of (a done-callback of the
                                    \* future being cancelled may cancel the same future again: only the outermost counts)
             tmo |-> EmptyMap,      \* executor id -> cancels by the timeout thread that returned True
@@ -76,7 +78,9 @@ ObsNext(st, e) ==
                      !.fail = IF e.s = "FINISHED" /\ e.a = 1 THEN @ \cup {e.f} ELSE @]
     [] e.ev = "LowerSubmit" -> [st EXCEPT !.nlow = Bump(@, e.f)]
     [] e.ev = "ExecCreated" -> [st EXCEPT !.execs = @ \cup {<<Key(e.k, e.c), e.b>>}]
-    [] e.ev = "ExecShutdownCall" -> [st EXCEPT !.shc = @ \cup {<<Key(e.k, e.c), e.b>>}]
+    [] e.ev = "ExecShutdownCall" ->
+          [st EXCEPT !.shc = @ \cup {<<Key(e.k, e.c), e.b>>},
+                     !.shterm = IF e.k = 9 /\ ~Has(@, e.c) THEN Put(@, e.c, st.term) ELSE @]
     \* (a shutdown() that raised - called from one of the executor's own threads, which cannot join itself - has ended too)
     [] e.ev \in {"ExecShutdownRet", "ExecShutdownRaise"} -> [st EXCEPT !.shr = @ \cup {<<Key(e.k, e.c), e.b>>}]
     [] e.ev = "FnCall" /\ e.s = "poll" ->
@@ -90,8 +94,11 @@ ObsNext(st, e) ==
     \* answers True on a future somebody else had cancelled already: that is not a timeout)
     [] e.ev = "CancelArrivedRet" /\ e.a = 1 ->
           [st EXCEPT !.tmo = IF e.r = "timeout" /\ e.k = T_TIMEOUT /\ ~Get(st.wasdone, <<e.thr, e.f>>, FALSE) THEN Bump(@, e.c) ELSE @,
-                     \* (likewise a shutdown-cancel "succeeded" when the sweep's cancel() cancelled a future that was not done)
-                     !.scan = IF e.b >= 0 /\ ~Get(st.wasdone, <<e.thr, e.f>>, FALSE) THEN Bump(@, e.b) ELSE @,
+                     \* (a shutdown-cancel is a True from the sweep's cancel() on a future that was still alive when shutdown()
+                     \*  was called - whether this call cancelled it or the sweep's earlier cancels did, through a combinator
+                     \*  that propagates.  A future the user had cancelled BEFORE the shutdown is not one, although cancel()
+                     \*  answers True for it)
+                     !.scan = IF e.b >= 0 /\ e.f \notin Get(st.shterm, e.b, {}) THEN Bump(@, e.b) ELSE @,
                      !.cdepth = Put(@, <<e.thr, e.f>>, Max(Get(st.cdepth, <<e.thr, e.f>>, 0) - 1, 0))]
     [] OTHER -> st
 
